@@ -21,10 +21,10 @@ type c14Seg struct {
 }
 
 type c14Case struct {
-	Segs    []c14Seg `json:"segments"`      // rotated log segments, in creation order
-	Open    string   `json:"open"`          // "" | index holding an open (unrotated) segment with old events
-	Metrics []string `json:"metrics"`       // ages of rotated metrics segments, in creation order
-	NowMs   int64    `json:"nowMs"`         // wall clock at case creation (ages are ±30..90 min around the horizon)
+	Segs    []c14Seg `json:"segments"` // rotated log segments, in creation order
+	Open    string   `json:"open"`     // "" | index holding an open (unrotated) segment with old events
+	Metrics []string `json:"metrics"`  // ages of rotated metrics segments, in creation order
+	NowMs   int64    `json:"nowMs"`    // wall clock at case creation (ages are ±30..90 min around the horizon)
 }
 
 const c14RetentionHours = 1
@@ -41,7 +41,7 @@ func (c *c14Case) ts(age string, k int) int64 {
 type c14Model struct {
 	openIDs   map[string]bool // events of the open (unrotated) segment; they are old
 	openIndex string
-	openState string // open | recovered (a restart turns the open segment into a rotated one) | expired
+	openState string          // open | recovered (a restart turns the open segment into a rotated one) | expired
 	survivors map[string]bool // event ids that must be searchable
 	deleted   map[string]bool
 	segsPerIx map[string]int // surviving rotated segments per index
